@@ -628,6 +628,10 @@ class StateMachine:
         if state is None and self.__default_state is not None:
             state = self.__default_state
             if self.__state != state:
+                # execution of the regular states ceased: always call done()
+                if self.__engaged and not done_called:
+                    done_called = True
+                    self.done()
                 state.ran = False
                 self.__state = state
 
